@@ -227,7 +227,7 @@ Lemma pbs_inv array parts idx :
   partition_by_sum array parts = Some idx ->
   parts <= length array /\
   idx = map (searchsorted_right (cumsum array))
-            (map (fun j => j * (list_sum array / parts)) (seq 1 (parts - 1))) /\
+            (map (fun j => (j * list_sum array) / parts) (seq 1 (parts - 1))) /\
   NoDup idx /\ Forall (fun i => 0 < i /\ i <> length array) idx.
 Proof.
   unfold partition_by_sum. rewrite last_cumsum.
@@ -283,11 +283,11 @@ Proof.
   rewrite Forall_forall in *. intros y Hy. apply in_map_iff in Hy as [z [<- Hz]]. apply Hf, Hx, Hz.
 Qed.
 
-Lemma targets_sorted c m : forall a, StronglySorted le (map (fun j => j * c) (seq a m)).
+Lemma targets_sorted c k m : forall a, StronglySorted le (map (fun j => (j * c) / k) (seq a m)).
 Proof.
   induction m as [|m IH]; intros a; cbn; constructor; [apply IH|].
   rewrite Forall_forall. intros y Hy. apply in_map_iff in Hy as [z [<- Hz]]. apply in_seq in Hz.
-  apply Nat.mul_le_mono_r. lia.
+  destruct k as [|k]; [cbn; lia|]. apply Nat.div_le_mono; [lia|]. apply Nat.mul_le_mono_r. lia.
 Qed.
 
 (** structure of a successful partition: parts-1 strictly increasing split
@@ -351,10 +351,6 @@ Qed.
 
 (** ** balance of the parts *)
 
-Lemma balance_ok_cons d r M p ps : ps <> [] ->
-  balance_ok d r M (p :: ps) = (d <? p + M) && (p <? d + M) && balance_ok d r M ps.
-Proof. destruct ps; [contradiction|reflexivity]. Qed.
-
 Lemma slices_nonnil {A B} (f : list A -> B) (l : list A) a idx : map f (slices l a idx) <> [].
 Proof. destruct idx; cbn; discriminate. Qed.
 
@@ -365,90 +361,155 @@ Proof.
   - rewrite nth_overflow by exact H. lia.
 Qed.
 
-Lemma balance_gen l d r M : (forall i, nth i l 0 <= M) ->
-  forall ts a T,
-  psum l a <= T -> T < psum l a + M ->
-  (fix steps (T : nat) (ts : list nat) : Prop :=
-     match ts with [] => True | t :: rest => t = T + d /\ steps t rest end) T ts ->
-  Forall (fun i => i < length l) (map (searchsorted_right (cumsum l)) ts) ->
-  list_sum l = T + S (length ts) * d + r ->
-  balance_ok d r M (map (@list_sum) (slices l a (map (searchsorted_right (cumsum l)) ts))) = true.
+Lemma psum_le_total l a : psum l a <= list_sum l.
 Proof.
-  intros HM. induction ts as [|t rest IH]; intros a T Ha1 Ha2 Hst Hf Htot.
-  - cbn [map slices balance_ok]. rewrite sum_skipn.
-    assert (psum l a <= list_sum l).
-    { destruct (Nat.le_ge_cases a (length l)) as [Hc|Hc].
-      - rewrite <- (psum_all l (length l)) by lia. apply psum_le, Hc.
-      - rewrite psum_all by exact Hc. lia. }
-    cbn [length] in Htot. apply andb_true_iff. split; [apply Nat.ltb_lt|apply Nat.ltb_lt]; lia.
-  - destruct Hst as [-> Hst]. cbn [map slices]. rewrite balance_ok_cons by apply slices_nonnil.
-    set (b := searchsorted_right (cumsum l) (T + d)) in *.
-    inversion Hf as [|? ? Hb Hf']; subst.
-    assert (Hs := ss_spec l 0 (T + d) (Nat.le_0_l _)). cbn zeta in Hs. fold (cumsum l) in Hs. fold b in Hs.
-    destruct Hs as [_ [Hs1 Hs2]]. specialize (Hs2 Hb). cbn [Nat.add] in Hs1, Hs2.
-    fold (psum l b) in Hs1. fold (psum l (S b)) in Hs2. rewrite psum_S in Hs2 by exact Hb.
-    specialize (HM b).
-    rewrite sum_slice.
-    rewrite (IH b (T + d)); [| lia | lia | exact Hst | exact Hf' | cbn [length] in Htot; lia].
-    rewrite andb_true_r. apply andb_true_iff. split; apply Nat.ltb_lt; lia.
+  destruct (Nat.le_ge_cases a (length l)) as [Hc|Hc].
+  - rewrite <- (psum_all l (length l)) by lia. apply psum_le, Hc.
+  - rewrite psum_all by exact Hc. lia.
 Qed.
 
-Lemma steps_targets d m : forall j,
-  (fix steps (T : nat) (ts : list nat) : Prop :=
-     match ts with [] => True | t :: rest => t = T + d /\ steps t rest end)
-    (j * d) (map (fun j => j * d) (seq (S j) m)).
+(** the cumulative sum at the split point found for the target J/k lies in
+    (J/k - x, J/k] where x is the element at the split point *)
+Lemma split_point_bound l k J : 0 < k ->
+  let b := searchsorted_right (cumsum l) (J / k) in
+  b < length l ->
+  k * psum l b <= J /\ J < k * (psum l b + nth b l 0).
+Proof.
+  intros Hk b Hb.
+  assert (Hs := ss_spec l 0 (J / k) (Nat.le_0_l _)). cbn zeta in Hs. fold (cumsum l) in Hs. fold b in Hs.
+  destruct Hs as [_ [Hs1 Hs2]]. specialize (Hs2 Hb). cbn [Nat.add] in Hs1, Hs2.
+  fold (psum l b) in Hs1. fold (psum l (S b)) in Hs2. rewrite psum_S in Hs2 by exact Hb.
+  assert (Hd := Nat.div_mod J k ltac:(lia)). assert (Hm := Nat.mod_upper_bound J k ltac:(lia)).
+  assert (H1 : k * psum l b <= k * (J / k)) by (apply Nat.mul_le_mono_l, Hs1).
+  assert (H2 : k * (J / k + 1) <= k * (psum l b + nth b l 0)) by (apply Nat.mul_le_mono_l; lia).
+  lia.
+Qed.
+
+Lemma balance_ok_cons total k M p ps :
+  balance_ok total k M (p :: ps) = (k * p <? total + k * M) && (total <? k * p + k * M) && balance_ok total k M ps.
+Proof. reflexivity. Qed.
+
+Lemma balance_gen l k M : 0 < k -> (forall i, nth i l 0 <= M) ->
+  forall ts a J,
+  k * psum l a <= J -> J < k * psum l a + k * M ->
+  (fix steps (J : nat) (ts : list nat) : Prop :=
+     match ts with [] => True | t :: rest => t = (J + list_sum l) / k /\ steps (J + list_sum l) rest end) J ts ->
+  Forall (fun i => i < length l) (map (searchsorted_right (cumsum l)) ts) ->
+  J + S (length ts) * list_sum l = k * list_sum l ->
+  balance_ok (list_sum l) k M (map (@list_sum) (slices l a (map (searchsorted_right (cumsum l)) ts))) = true.
+Proof.
+  intros Hk HM. induction ts as [|t rest IH]; intros a J Ha1 Ha2 Hst Hf Htot.
+  - cbn [map slices]. rewrite balance_ok_cons. cbn [balance_ok forallb]. rewrite andb_true_r, sum_skipn.
+    assert (Hle := psum_le_total l a). rewrite Nat.mul_sub_distr_l.
+    assert (k * psum l a <= k * list_sum l) by (apply Nat.mul_le_mono_l, Hle).
+    cbn [length] in Htot. apply andb_true_iff. split; apply Nat.ltb_lt; lia.
+  - destruct Hst as [-> Hst]. cbn [map slices]. rewrite balance_ok_cons.
+    set (J' := J + list_sum l) in *.
+    set (b := searchsorted_right (cumsum l) (J' / k)) in *.
+    inversion Hf as [|? ? Hb Hf']; subst.
+    destruct (split_point_bound l k J' Hk Hb) as [Hb1 Hb2]. fold b in Hb1, Hb2.
+    specialize (HM b).
+    assert (Hb3 : k * (psum l b + nth b l 0) <= k * psum l b + k * M)
+      by (rewrite <- Nat.mul_add_distr_l; apply Nat.mul_le_mono_l; lia).
+    rewrite sum_slice, Nat.mul_sub_distr_l.
+    rewrite (IH b J'); [| lia | lia | exact Hst | exact Hf' | cbn [length] in Htot; unfold J'; lia].
+    rewrite andb_true_r. unfold J' in *. apply andb_true_iff. split; apply Nat.ltb_lt; lia.
+Qed.
+
+Lemma steps_targets c k m : forall j,
+  (fix steps (J : nat) (ts : list nat) : Prop :=
+     match ts with [] => True | t :: rest => t = (J + c) / k /\ steps (J + c) rest end)
+    (j * c) (map (fun j => (j * c) / k) (seq (S j) m)).
 Proof.
   induction m as [|m IH]; intros j; cbn [seq map]; [exact I|].
-  split; [lia|apply IH].
+  replace (j * c + c) with (S j * c) by lia. split; [reflexivity|apply IH].
 Qed.
 
-(** each part's sum is within one (largest) element of total // parts; the
-    last part also carries the remainder total mod parts *)
+(** the largest element is positive when a partition into >= 2 parts exists *)
+Lemma pbs_max_pos array parts idx :
+  partition_by_sum array parts = Some idx -> 2 <= parts -> 0 < list_max array.
+Proof.
+  intros H Hp. destruct (pbs_structure _ _ _ H) as [_ [_ Hf]]. destruct (pbs_inv _ _ _ H) as [_ [Hi _]].
+  destruct parts as [|[|k]]; try lia. cbn [Nat.sub seq map] in Hi.
+  rewrite Hi in Hf. inversion Hf as [|? ? [_ Hb] _]; subst.
+  destruct (split_point_bound array (S (S k)) (1 * list_sum array) ltac:(lia) Hb) as [H1 H2].
+  set (b := searchsorted_right _ _) in *.
+  assert (Hn := nth_le_list_max array b).
+  destruct (nth b array 0) eqn:E; [|lia]. rewrite Nat.add_0_r in H2. lia.
+Qed.
+
+(** STRICT balance: every part's sum differs from total/parts (the rational)
+    by less than the largest element *)
 Theorem pbs_balance array parts idx :
   partition_by_sum array parts = Some idx -> 2 <= parts ->
-  balance_ok (list_sum array / parts) (list_sum array mod parts) (list_max array)
-             (map (@list_sum) (np_split array idx)) = true.
+  balance_ok (list_sum array) parts (list_max array) (map (@list_sum) (np_split array idx)) = true.
 Proof.
   intros H Hp. destruct (pbs_structure _ _ _ H) as [Hl [Hs Hf]].
   destruct (pbs_inv _ _ _ H) as [Hle [Hi _]].
-  set (d := list_sum array / parts) in *. set (r := list_sum array mod parts).
+  assert (HM := pbs_max_pos _ _ _ H Hp).
   unfold np_split. rewrite Hi.
-  (* the largest element is positive: the first split point is inside *)
-  assert (HM : 0 < list_max array).
-  { destruct parts as [|[|k]]; try lia. cbn [Nat.sub seq map] in Hi.
-    rewrite Hi in Hf. inversion Hf as [|? ? [_ Hb] _]; subst.
-    assert (Hs' := ss_spec array 0 (1 * d) (Nat.le_0_l _)). cbn zeta in Hs'. fold (cumsum array) in Hs'.
-    destruct Hs' as [_ [Hs1 Hs2]]. specialize (Hs2 Hb). cbn [Nat.add] in Hs1, Hs2.
-    set (b := searchsorted_right (cumsum array) (1 * d)) in *.
-    fold (psum array b) in Hs1. fold (psum array (S b)) in Hs2. rewrite psum_S in Hs2 by exact Hb.
-    assert (Hn := nth_le_list_max array b). lia. }
-  apply (balance_gen array d r (list_max array) (nth_le_list_max array) _ 0 0).
+  apply (balance_gen array parts (list_max array) ltac:(lia) (nth_le_list_max array) _ 0 0).
   - cbn. lia.
-  - cbn. lia.
-  - apply (steps_targets d (parts - 1) 0).
+  - cbn. rewrite Nat.mul_0_r. cbn. apply Nat.mul_pos_pos; lia.
+  - apply (steps_targets (list_sum array) parts (parts - 1) 0).
   - rewrite <- Hi. rewrite Forall_forall in *. intros i Hin. apply Hf, Hin.
-  - rewrite map_length, seq_length. replace (S (parts - 1)) with parts by lia.
-    unfold d, r. rewrite (Nat.div_mod (list_sum array) parts) at 1 by lia. lia.
+  - rewrite map_length, seq_length. replace (S (parts - 1)) with parts by lia. lia.
 Qed.
 
-(** reading of [balance_ok] *)
-Lemma balance_ok_spec d r M ps : ps <> [] ->
-  (balance_ok d r M ps = true <->
-   Forall (fun p => d < p + M) ps /\ Forall (fun p => p < d + M) (removelast ps) /\
-   last ps 0 < d + r + M).
+(** the sharper per-split-point form: the cumulative sum in front of split
+    point number j (1-based) is at most j*total/parts and misses it by less
+    than the element sitting at the split point *)
+Theorem pbs_split_point_balance array parts idx :
+  partition_by_sum array parts = Some idx ->
+  forall j, j < length idx ->
+  let b := nth j idx 0 in
+  parts * list_sum (firstn b array) <= S j * list_sum array /\
+  S j * list_sum array < parts * (list_sum (firstn b array) + nth b array 0).
 Proof.
-  induction ps as [|p t IH]; intros Hne; [contradiction|].
-  destruct t as [|q t'].
-  - cbn [balance_ok removelast last]. rewrite andb_true_iff, !Nat.ltb_lt. split.
-    + intros [H1 H2]. repeat split; [constructor; [exact H1|constructor]|constructor|exact H2].
-    + intros [H1 [_ H2]]. inversion H1; subst. split; assumption.
-  - rewrite balance_ok_cons by discriminate.
-    change (removelast (p :: q :: t')) with (p :: removelast (q :: t')).
-    change (last (p :: q :: t') 0) with (last (q :: t') 0).
-    rewrite !andb_true_iff, !Nat.ltb_lt, IH by discriminate. split.
-    + intros [[H1 H2] [H3 [H4 H5]]]. repeat split; [constructor|constructor|]; assumption.
-    + intros [H1 [H2 H3]]. inversion H1; subst. inversion H2; subst. repeat split; assumption.
+  intros H j Hj. destruct (pbs_structure _ _ _ H) as [Hl [_ Hf]]. destruct (pbs_inv _ _ _ H) as [Hle [Hi _]].
+  cbn zeta. assert (Hb : nth j idx 0 < length array).
+  { rewrite Forall_forall in Hf. apply Hf, nth_In, Hj. }
+  assert (E : nth j idx 0 = searchsorted_right (cumsum array) ((S j * list_sum array) / parts)).
+  { rewrite Hi. rewrite (nth_indep _ 0 (searchsorted_right (cumsum array) 0)) by (rewrite <- Hi; exact Hj).
+    rewrite map_nth. f_equal.
+    rewrite (nth_indep _ 0 ((fun j => j * list_sum array / parts) 0)) by (rewrite map_length, seq_length; lia).
+    rewrite (map_nth (fun j => j * list_sum array / parts)). rewrite seq_nth by lia. reflexivity. }
+  rewrite E in *. apply (split_point_bound array parts (S j * list_sum array)); [lia|exact Hb].
 Qed.
+
+(** reading of [balance_ok]: |p - total/k| < M, cross-multiplied by k *)
+Lemma balance_ok_spec total k M ps :
+  balance_ok total k M ps = true <->
+  Forall (fun p => k * p < total + k * M /\ total < k * p + k * M) ps.
+Proof.
+  unfold balance_ok. rewrite forallb_forall, Forall_forall.
+  split; intros H p Hp; specialize (H p Hp).
+  - apply andb_true_iff in H as [H1 H2]. apply Nat.ltb_lt in H1, H2. split; assumption.
+  - apply andb_true_iff. split; apply Nat.ltb_lt; tauto.
+Qed.
+
+(** ... and as a statement about rationals *)
+Lemma balance_ok_Q total k M p : 0 < k ->
+  (k * p < total + k * M /\ total < k * p + k * M) <->
+  (Qabs (inject_Z (Z.of_nat p) - (Z.of_nat total # Pos.of_nat k)) < inject_Z (Z.of_nat M))%Q.
+Proof.
+  intros Hk. rewrite Qabs_Qlt_condition. unfold Qlt, Qminus, Qplus, Qopp, inject_Z. cbn [Qnum Qden].
+  rewrite !Z.mul_1_r, !Pos.mul_1_l.
+  assert (E : Z.pos (Pos.of_nat k) = Z.of_nat k).
+  { destruct k; [lia|]. rewrite <- Pos.of_nat_succ. lia. }
+  rewrite !E. split; intros [H1 H2]; split; nia.
+Qed.
+
+(** the pinned code violated the strict bound: five singleton blocks in three
+    parts gave sums 1, 1, 3 (3 is 4/3 away from 5/3, a block's population is 1) *)
+Lemma partition_by_sum_pinned_refuted :
+  partition_by_sum_pinned [1;1;1;1;1] 3 = Some [1;2] /\
+  map (@list_sum) (np_split [1;1;1;1;1] [1;2]) = [1;1;3] /\
+  balance_ok 5 3 (list_max [1;1;1;1;1]) [1;1;3] = false /\
+  (* while the repaired code gives 1, 2, 2 *)
+  partition_by_sum [1;1;1;1;1] 3 = Some [1;3] /\
+  map (@list_sum) (np_split [1;1;1;1;1] [1;3]) = [1;2;2].
+Proof. repeat split; reflexivity. Qed.
 
 (** * D. sklearn KFold without shuffling *)
 
@@ -811,11 +872,10 @@ Proof.
   - congruence.
 Qed.
 
-(** balanced path: the test folds' point counts are within one block's
-    population (the largest) of n // n_splits, the last fold also carrying
-    n mod n_splits *)
+(** balanced path: every test fold's point count differs from n / n_splits
+    (the rational) by less than one block's population (the largest) *)
 Theorem bk_balance : balance = true -> warned = false ->
-  balance_ok (n / k) (n mod k) (list_max (map (count labels) (usort labels)))
+  balance_ok n k (list_max (map (count labels) (usort labels)))
              (map (fun s => length (snd s)) splits) = true.
 Proof.
   intros Hb Hw. assert (Hk := bk_k).
